@@ -127,7 +127,12 @@ fn copy_dir(from: &std::path::Path, to: &std::path::Path) -> std::io::Result<()>
         if p.is_dir() {
             copy_dir(&p, &t)?;
         } else if e.file_name() != "LOCK" {
-            std::fs::copy(&p, &t)?;
+            match std::fs::copy(&p, &t) {
+                Ok(_) => {}
+                // an obsolete file purged by RocksDB while the image is taken
+                Err(e) if e.kind() == std::io::ErrorKind::NotFound => {}
+                Err(e) => return Err(e),
+            }
         }
     }
     Ok(())
@@ -308,9 +313,7 @@ impl Subject for Subject12 {
                     v.push(Op12::Restart { policy: *p });
                 }
                 if self.kill {
-                    for p in &self.policies {
-                        v.push(Op12::KillRestart { policy: *p });
-                    }
+                    v.push(Op12::KillRestart { policy: w.policy });
                 }
             }
         }
@@ -346,9 +349,6 @@ impl Subject for Subject12 {
             Op12::Restart { .. } | Op12::KillRestart { .. } => 1,
             _ => 0,
         }
-    }
-    fn required_labels(&self) -> Vec<String> {
-        vec!["Commit".into(), "Rollback".into(), "Restart".into()]
     }
     fn interesting(&self, op: &Op12, obs: &str) -> bool {
         // a historical view was really served, or a rollback/restart happened
@@ -499,7 +499,8 @@ impl Subject for Subject12 {
 }
 
 fn depth_of(cli: &Cli) -> usize {
-    cli.tier.pick(3, 4)
+    // every world costs several RocksDB opens (each spawning ~15 threads per column family)
+    cli.tier.pick(2, 4)
 }
 
 fn subjects(cli: &Cli) -> Vec<Subject12> {
@@ -507,10 +508,11 @@ fn subjects(cli: &Cli) -> Vec<Subject12> {
     let policies = vec![Policy::NoRewind, Policy::Full, Policy::Range(1), Policy::Range(2)];
     let deltas = if thorough { vec![Delta::Put0And2, Delta::Del0, Delta::Same0] } else { vec![Delta::Put0And2, Delta::Del0] };
     let mut v = vec![];
-    // (first height, pre-committed blocks)
-    let starts: Vec<(u32, u32)> = if thorough { vec![(0, 2), (0, 0), (1, 0)] } else { vec![(0, 2)] };
-    for (first_height, prefill) in starts {
-        for p in &policies {
+    // (first height, pre-committed blocks, initial policies)
+    let all = policies.clone();
+    let starts: Vec<(u32, u32, Vec<Policy>)> = if thorough { vec![(0, 2, all.clone()), (0, 0, all.clone()), (1, 0, vec![Policy::Full, Policy::Range(1)])] } else { vec![(0, 2, all.clone())] };
+    for (first_height, prefill, initials) in starts {
+        for p in &initials {
             v.push(Subject12 { initial: *p, first_height, deltas: deltas.clone(), policies: policies.clone(), kill: thorough, max_depth: depth_of(cli), prefill });
         }
     }
@@ -541,11 +543,12 @@ pub fn run(cli: &Cli) {
     let depth = depth_of(cli);
     let devs = cli.tier.pick(2, 2);
     // subjects run concurrently
-    let per_wall = cli.tier.pick(55u64, 1400 * 4 / subs.len().max(4) as u64);
+    let per_wall = cli.tier.pick(110u64, 1400);
     let mut quiet = vec![];
     let mut restart_points = 0usize;
     let reports = crate::util::explore_parallel(&subs, |_| Bounds::new(depth, cli).deviations(devs).wall(per_wall.max(5)), cli.threads);
     for r in reports {
+        crate::util::require_labels(&r, &["Commit", "Rollback", "Restart"]);
         restart_points += r.label_hits.get("Restart").copied().unwrap_or(0) + r.label_hits.get("KillRestart").copied().unwrap_or(0);
         if !r.violations.is_empty() || !r.exhaustive {
             run.add(r);
